@@ -20,7 +20,7 @@ FUNCTIONS = ["yaml_paths.search_for_paths", "yaml_paths.yield_children", "yaml_p
              "Processor.get_nodes (re-query of every reported path, both notations)"]
 STUBS = ["EYAMLProcessor is constructed but never decrypts (decrypt_eyaml=False)", "no argv / file loading (search_for_paths is "
          "called directly on harness documents)"]
-OUTSIDE = ["regular-expression terms and symbolic terms (engine limits): operators with concrete terms; merge keys (<<:)",
+OUTSIDE = ["regular-expression terms and symbolic terms (engine limits): operators with concrete terms",
            "alias shards are selector-driven (anchored scalars are C-constructed)"]
 ASSUMPTIONS = ["oracle: matching leaves/keys computed with the C12 reference comparison; re-resolution against the document itself"]
 
@@ -169,6 +169,36 @@ def alias_keys_ok(k: int) -> bool:
     return sorted(paths) == sorted(want)
 
 
+def merge_keys_ok(k: int) -> bool:
+    """YAML merge keys (<<: *anchor): merged-in keys are aliased repeats - reported only when an alias option asks."""
+    from ruamel.yaml.comments import CommentedMap
+    k = realize(k)
+    ika, k = k % 2, k // 2
+    iva, k = k % 2, k // 2
+    keys = k % 2
+    base = CommentedMap([("k", "v"), ("z", "w")])
+    base.yaml_set_anchor("b", always_dump=True)
+    under_list = CommentedMap([("own", "v")])
+    under_list.add_yaml_merge([(0, base)])
+    deep = CommentedMap([("mine", "v")])
+    deep.add_yaml_merge([(0, base)])
+    top = CommentedMap([("t", "x")])
+    top.add_yaml_merge([(0, base)])
+    doc = cmap(("base", base), ("items", cseq(under_list, cmap(("deep", cseq(deep))))), ("top", top))
+    terms = SearchTerms(False, M.EQUALS, ".", "k" if keys else "v")
+    paths = [str(p) for p in yp.search_for_paths(LOG, EYAMLProcessor(LOG, doc), doc, terms, PathSeparators.DOT,
+                                                 search_values=not keys, search_keys=bool(keys),
+                                                 include_key_aliases=bool(ika), include_value_aliases=bool(iva))]
+    note(include_key_aliases=bool(ika), include_value_aliases=bool(iva), search="keys" if keys else "values", reported=paths)
+    own = ["base.k"] if keys else ["base.k", "items[0].own", "items[1].deep[0].mine"]
+    merged = ["items[0].k", "items[1].deep[0].k", "top.k"]
+    if not ika and not iva:
+        return sorted(paths) == sorted(own)
+    # an alias option is on: the merged repeats are included at every merging hash - under lists and under hashes alike
+    got_merged = [p for p in paths if p in merged]
+    return all(p in paths for p in own) and (len(got_merged) == 0 or sorted(got_merged) == sorted(merged))
+
+
 def expression_ok(k: int) -> bool:
     """get_search_term turns an operator expression into the corresponding search terms."""
     k = realize(k)
@@ -216,6 +246,8 @@ def shards(tier, seed):
                      kind="S", desc="anchored scalar with two aliases x include_value_aliases x value matches x inverted"))
     out.append(shard(PID, "alias_keys", "harness.c07", "alias_keys_ok(k)", [("k", "int")], ["0 <= k < 8"], family="alias", budget=600,
                      kind="S", desc="anchored value under a (non-)matching key, alias elsewhere, key-name search on"))
+    out.append(shard(PID, "merge_keys", "harness.c07", "merge_keys_ok(k)", [("k", "int")], ["0 <= k < 8"], family="alias", budget=600,
+                     kind="S", desc="<<: merge keys under a hash, under a list and deeper x alias options x values/keys"))
     out.append(shard(PID, "expression", "harness.c07", "expression_ok(k)", [("k", "int")], ["0 <= k < %d" % N_EXPR],
                      family="expression", budget=300, kind="S", desc="get_search_term on %d operator expressions" % N_EXPR))
     return out
